@@ -2,13 +2,16 @@
     generated spec records. *)
 From Coq Require Import List Arith ZArith Lia Bool String.
 From OW Require Import Base.Interleave Wrapper.Spec Wrapper.Run Wrapper.Views Wrapper.CellFacts
-  Wrapper.RunProofs Wrapper.Footprint Gen.WrapperSpecs.
+  Wrapper.RunProofs Wrapper.Footprint Wrapper.ParamBounds Wrapper.FindDims Gen.WrapperSpecs.
 Import ListNotations.
 Local Open Scope nat_scope.
 
 Lemma C04_specs_check :
   wrapper_specs_unsupported = [] /\ forallb spec_supported wrapper_specs = true /\ List.length wrapper_specs = 41.
 Proof. repeat split; vm_compute; reflexivity. Qed.
+
+Lemma C04_specs_dim_names_nodup : Forall (fun s => NoDup (dim_names (s_params s))) wrapper_specs.
+Proof. repeat constructor; simpl; intuition (try discriminate). Qed.
 
 (** A one-input, one-output, one-state model with one scalar parameter:
     out[t] = in[t] + p, state' = state + sum(in). *)
